@@ -54,6 +54,7 @@ Inv_C07_FFNS == Leaf => C07_FFNSPartition(Cell)
 Inv_C07_ZM == Leaf => C07_ZMTotalIsLight(Cell)
 Inv_C07_FONLL == Leaf => C07_FONLLParts(Cell)
 Inv_C07_Pos == Leaf => C07_PositivitySum(Cell)
+Inv_C07_Tagged == Leaf => C07_TaggedIsRestricted(Cell)
 Inv_C12_Rot == Leaf => C12_IsospinIsPdfRotation(Cell)
 Inv_C12_Neutron == Leaf => C12_NeutronIsUDSwap(Cell)
 Inv_C12_InPlace == Leaf => C12_InPlaceSound(Cell)
@@ -62,6 +63,7 @@ Inv_C13_Flip == Leaf => C13_PositronFlip(Cell)
 Inv_C13_Conj == Leaf => C13_ChargeConjugation(Cell)
 Inv_C13_Exch == Leaf => C13_EqualChargeExchange(Cell)
 Inv_C13_Tagged == Leaf => C13_TaggedSpectators(Cell)
+Inv_C09_Blind == Leaf => C09_MissingIsFlavourBlind(Cell)
 Inv_C16 == Leaf => C16_OutcomeTotal(Cell)
 Inv_Registry == Leaf => RegistryComplete(Cell)
 Inv_C08_Mirror == Leaf => C08_AsyMirrorsMassive(Cell)
